@@ -67,14 +67,15 @@ def _discharge(ctx, h, case, deadline, rng, out_paths, path_id, emit):
     from . import core
     facts = ctx.facts()
     t0 = time.time()
-    tw, tm = core.check_sat(facts, min(case.timeout, 20) * 1000)
+    # reachability twin: pinned inputs first (nlsat is slow at finding models with many atoms), then the free query
+    tw = "unknown"
+    for pins in pinned_queries(ctx, rng, 12):
+        r, m = core.check_sat(facts + pins, 3000)
+        if r == "sat":
+            tw = "sat"
+            break
     if tw != "sat":
-        # try with pinned inputs (nlsat is slow at finding models with many atoms)
-        for pins in pinned_queries(ctx, rng, 6):
-            r, m = core.check_sat(facts + pins, 5000)
-            if r == "sat":
-                tw = "sat"
-                break
+        tw, tm = core.check_sat(facts, min(case.timeout, 20) * 1000)
     prec = dict(path=path_id, twin=tw, notes=[(str(n)[:100], bool(d)) for n, d in ctx.path_notes],
                 n_obl=len(h.obls), exc=None)
     results = []
@@ -143,13 +144,19 @@ def _discharge(ctx, h, case, deadline, rng, out_paths, path_id, emit):
         else:
             t1 = time.time()
             if o.trivial is False:
-                # literally false claim: any state of the path is a counterexample
-                r, m = core.check_sat(facts, case.timeout * 1000)
+                # literally false claim: any state of the path (in the obligation's context) is a counterexample
+                r, m = "unknown", None
+                for pins in pinned_queries(ctx, rng, 6):
+                    r2, m2 = core.check_sat(facts + pins, 5000)
+                    if r2 == "sat":
+                        r, m = "sat", m2
+                        break
                 if r != "sat":
-                    for pins in pinned_queries(ctx, rng, 4):
-                        r, m = core.check_sat(facts + pins, 5000)
-                        if r == "sat":
-                            break
+                    r2, m2 = core.check_sat(facts, case.timeout * 1000)
+                    if r2 == "sat":
+                        r, m = "sat", m2
+                    elif r2 == "unsat":
+                        r = "infeasible"     # the context of the false claim is itself unsatisfiable: nothing claimed, nothing refuted
             else:
                 # 1) cheap refutation attempt: all inputs pinned to random rationals (a violated identity is
                 #    violated almost everywhere, and such a model is well conditioned for the float replay)
@@ -506,6 +513,8 @@ def run_property(mod, tier, seed, only=None):
                     n_unsat += 1
                     if o.get("smt_sample") and len(samples) < 4:
                         samples.append(dict(case=cid, obligation=f"{o['name']}[{o['idx']}]", negated_claim_smt2=o["smt_sample"], result="unsat", t=o["t"]))
+            elif o["status"] == "infeasible":
+                pass
             elif o["status"] == "unknown":
                 inconclusive.append(dict(case=cid, name=o["name"], idx=o["idx"], why=o.get("why", "solver unknown/timeout")))
             elif o["status"] == "sat":
@@ -581,6 +590,8 @@ def run_property(mod, tier, seed, only=None):
     json.dump(ev, open(os.path.join(ROOT, "evidence", f"{prop}.json"), "w"), indent=1, default=str)
     print(f"[{prop}] attempted={n_obl} unsat={n_unsat} trivial={n_triv} sat={n_sat} inconclusive={len(inconclusive)} "
           f"paths={paths_total} vacuous={len(vacuous)} queries={queries} solver={solver_s:.1f}s wall={wall:.1f}s", flush=True)
+    slowc = sorted(((R.get("wall", 0), cid) for cid, R in results.items()), reverse=True)[:5]
+    print("  slowest cases:", slowc)
     slow = sorted(((o.get("t", 0), cid, o["name"], o["idx"], o["status"]) for cid, R in results.items() for o in R["obls"]), reverse=True)[:3]
     print("  slowest obligations:", [(t, c, n, i, st) for (t, c, n, i, st) in slow if t > 1.0])
     for i in inconclusive[:12]:
